@@ -50,12 +50,12 @@ HARNESSES = [
     # ---------------------------------------------------------------- C12 acknowledgement
     dict(name="c12_done_races_poll", file="acknowledgement.rs", props=["C12", "C18"], timeout=300,
          encodes=["tinylfu_cached::cache::command::acknowledgement::CommandAcknowledgementHandle::{done,poll}", "CommandAcknowledgement::new"]),
-    dict(name="c12_poll_races_done", file="acknowledgement.rs", props=["C12", "C18"], timeout=300,
+    dict(name="c12_poll_races_done", file="acknowledgement.rs", props=["C12"], timeout=300,
          encodes=["tinylfu_cached::cache::command::acknowledgement::CommandAcknowledgementHandle::{done,poll}"]),
     dict(name="c12_preresolved", file="acknowledgement.rs", props=["C12"], timeout=120,
          encodes=["tinylfu_cached::cache::command::acknowledgement::CommandAcknowledgement::{accepted,rejected}"]),
     # ---------------------------------------------------------------- cache weight (C01/C05/C16) and sampler (C06)
-    dict(name="c05_cache_weight_step", file="cache_weight.rs", props=["C05", "C01", "C16", "C03"], timeout=400,
+    dict(name="c05_cache_weight_step", file="cache_weight.rs", props=["C05", "C01", "C16", "C03", "C18"], timeout=400,
          encodes=["tinylfu_cached::cache::policy::cache_weight::CacheWeight::{is_space_available_for,add,update,delete,clear,contains,weight_of,update_weight_stats}"]),
     dict(name="c06_sampled_key_order_kernel", file="cache_weight.rs", props=["C06"], timeout=120,
          encodes=["tinylfu_cached::cache::policy::cache_weight::SampledKey::{cmp,partial_cmp,eq}"]),
@@ -64,37 +64,37 @@ HARNESSES = [
     dict(name="c06_sampler_victim_order", file="cache_weight.rs", props=["C06"], timeout=600,
          encodes=["tinylfu_cached::cache::policy::cache_weight::FrequencyCounterBasedMinHeapSamples::{new,initial_sample,min_frequency_key}", "SampledKey::cmp"]),
     # ---------------------------------------------------------------- store (C02, C09, C04, C07, C08)
-    dict(name="c02_store_reads_agree_with_abstract_map", file="store.rs", props=["C02", "C09", "C16", "C07"], timeout=600,
+    dict(name="c02_store_reads_agree_with_abstract_map", file="store.rs", props=["C02", "C09", "C16"], timeout=600,
          encodes=["tinylfu_cached::cache::store::Store::{get,get_ref,contains,is_present}", "StoredValue::is_alive", "KeyValueRef::{key,value}"]),
-    dict(name="c02_store_write_step", file="store.rs", props=["C02", "C04", "C08", "C16", "C03"], timeout=600,
+    dict(name="c02_store_write_step", file="store.rs", props=["C02", "C03"], timeout=600,
          encodes=["tinylfu_cached::cache::store::Store::{put,put_with_ttl,delete,mark_deleted,update,clear}", "UpdateResponse::{did_update_happen,existing_expiry,new_expiry,value,key_id_or_panic}"]),
     # ---------------------------------------------------------------- admission (C06, C01, C03)
-    dict(name="c06_maybe_add_rule_1_resident", file="admission_policy.rs", props=["C06", "C01", "C03", "C05"], timeout=1200, tier="quick",
+    dict(name="c06_maybe_add_rule_1_resident", file="admission_policy.rs", props=["C06", "C01", "C03"], timeout=1200, tier="quick",
          encodes=["tinylfu_cached::cache::policy::admission_policy::AdmissionPolicy::{maybe_add,create_space,estimate}", "CacheWeight::{is_space_available_for,add,delete,sample}",
                   "FrequencyCounterBasedMinHeapSamples::{new,initial_sample,min_frequency_key,maybe_fill_in}", "TinyLFU::estimate", "FrequencyCounter::estimate", "DoorKeeper::has"]),
-    dict(name="c06_maybe_add_rule_2_residents", file="admission_policy.rs", props=["C06", "C01", "C03", "C05"], timeout=1200, tier="quick",
+    dict(name="c06_maybe_add_rule_2_residents", file="admission_policy.rs", props=["C06", "C01", "C18"], timeout=1200, tier="quick",
          encodes=["tinylfu_cached::cache::policy::admission_policy::AdmissionPolicy::{maybe_add,create_space,estimate}", "CacheWeight::{is_space_available_for,add,delete,sample}",
                   "FrequencyCounterBasedMinHeapSamples::{new,initial_sample,min_frequency_key,maybe_fill_in}", "TinyLFU::estimate", "FrequencyCounter::estimate", "DoorKeeper::has"]),
-    dict(name="c06_maybe_add_rule_3_residents", file="admission_policy.rs", props=["C06", "C01", "C03", "C05"], timeout=1200, tier="quick",
+    dict(name="c06_maybe_add_rule_3_residents", file="admission_policy.rs", props=["C06", "C01"], timeout=1200, tier="quick",
          encodes=["tinylfu_cached::cache::policy::admission_policy::AdmissionPolicy::{maybe_add,create_space,estimate}", "CacheWeight::{is_space_available_for,add,delete,sample}",
                   "FrequencyCounterBasedMinHeapSamples::{new,initial_sample,min_frequency_key,maybe_fill_in}", "TinyLFU::estimate", "FrequencyCounter::estimate", "DoorKeeper::has"]),
-    dict(name="c06_maybe_add_rule_any_residents", file="admission_policy.rs", props=["C06", "C01", "C03", "C05"], timeout=1200, tier="thorough",
+    dict(name="c06_maybe_add_rule_any_residents", file="admission_policy.rs", props=["C06", "C01"], timeout=1200, tier="thorough",
          encodes=["tinylfu_cached::cache::policy::admission_policy::AdmissionPolicy::{maybe_add,create_space,estimate}", "CacheWeight::{is_space_available_for,add,delete,sample}",
                   "FrequencyCounterBasedMinHeapSamples::{new,initial_sample,min_frequency_key,maybe_fill_in}", "TinyLFU::estimate", "FrequencyCounter::estimate", "DoorKeeper::has"]),
     # ---------------------------------------------------------------- whole CacheD: reads (C02)
-    dict(name="c02_read_get", file="cached.rs", props=["C02", "C09", "C16", "C15"], timeout=900,
+    dict(name="c02_read_get", file="cached.rs", props=["C02", "C09", "C15"], timeout=900,
          encodes=["tinylfu_cached::cache::cached::CacheD::{get,mark_key_accessed,is_shutting_down}", "MultiGetIterator::next", "MultiGetMapIterator::next", "Store::{get,get_ref}", "Pool::add"]),
-    dict(name="c02_read_get_ref", file="cached.rs", props=["C02", "C09", "C16", "C15"], timeout=900,
+    dict(name="c02_read_get_ref", file="cached.rs", props=["C02", "C15", "C18"], timeout=900,
          encodes=["tinylfu_cached::cache::cached::CacheD::{get_ref,mark_key_accessed,is_shutting_down}", "MultiGetIterator::next", "MultiGetMapIterator::next", "Store::{get,get_ref}", "Pool::add"]),
-    dict(name="c02_read_map_get", file="cached.rs", props=["C02", "C09", "C16", "C15"], timeout=900,
+    dict(name="c02_read_map_get", file="cached.rs", props=["C02"], timeout=900,
          encodes=["tinylfu_cached::cache::cached::CacheD::{map_get,mark_key_accessed,is_shutting_down}", "MultiGetIterator::next", "MultiGetMapIterator::next", "Store::{get,get_ref}", "Pool::add"]),
-    dict(name="c02_read_map_get_ref", file="cached.rs", props=["C02", "C09", "C16", "C15"], timeout=900,
+    dict(name="c02_read_map_get_ref", file="cached.rs", props=["C02"], timeout=900,
          encodes=["tinylfu_cached::cache::cached::CacheD::{map_get_ref,mark_key_accessed,is_shutting_down}", "MultiGetIterator::next", "MultiGetMapIterator::next", "Store::{get,get_ref}", "Pool::add"]),
-    dict(name="c02_read_multi_get", file="cached.rs", props=["C02", "C09", "C16", "C15"], timeout=900,
+    dict(name="c02_read_multi_get", file="cached.rs", props=["C02"], timeout=900,
          encodes=["tinylfu_cached::cache::cached::CacheD::{multi_get,mark_key_accessed,is_shutting_down}", "MultiGetIterator::next", "MultiGetMapIterator::next", "Store::{get,get_ref}", "Pool::add"]),
-    dict(name="c02_read_multi_get_iterator", file="cached.rs", props=["C02", "C09", "C16", "C15"], timeout=900,
+    dict(name="c02_read_multi_get_iterator", file="cached.rs", props=["C02"], timeout=900,
          encodes=["tinylfu_cached::cache::cached::CacheD::{multi_get_iterator,mark_key_accessed,is_shutting_down}", "MultiGetIterator::next", "MultiGetMapIterator::next", "Store::{get,get_ref}", "Pool::add"]),
-    dict(name="c02_read_multi_get_map_iterator", file="cached.rs", props=["C02", "C09", "C16", "C15"], timeout=900,
+    dict(name="c02_read_multi_get_map_iterator", file="cached.rs", props=["C02"], timeout=900,
          encodes=["tinylfu_cached::cache::cached::CacheD::{multi_get_map_iterator,mark_key_accessed,is_shutting_down}", "MultiGetIterator::next", "MultiGetMapIterator::next", "Store::{get,get_ref}", "Pool::add"]),
     dict(name="c02_two_keys_multi_get", file="cached.rs", props=["C02"], timeout=900,
          encodes=["tinylfu_cached::cache::cached::CacheD::{multi_get,multi_get_iterator,multi_get_map_iterator}", "MultiGetIterator::next", "MultiGetMapIterator::next"]),
@@ -102,42 +102,42 @@ HARNESSES = [
          encodes=["tinylfu_cached::cache::cached::CacheD::{multi_get,multi_get_iterator,multi_get_map_iterator}", "MultiGetIterator::next", "MultiGetMapIterator::next"]),
     dict(name="c02_two_keys_map_iterator", file="cached.rs", props=["C02"], timeout=900,
          encodes=["tinylfu_cached::cache::cached::CacheD::{multi_get,multi_get_iterator,multi_get_map_iterator}", "MultiGetIterator::next", "MultiGetMapIterator::next"]),
-    dict(name="c07_put_client_step_q0", group="c07_put_client_step", file="cached.rs", props=["C07", "C05", "C11", "C17"], timeout=900,
+    dict(name="c07_put_client_step_q0", group="c07_put_client_step", file="cached.rs", props=["C07"], timeout=900,
          encodes=["tinylfu_cached::cache::cached::CacheD::{put,put_with_weight,put_with_ttl,put_with_weight_and_ttl,key_description}", "Store::is_present", "CommandExecutor::send", "Calculation::perform", "CommandAcknowledgement::{new,rejected}"]),
-    dict(name="c07_put_client_step_q1", group="c07_put_client_step", file="cached.rs", props=["C07", "C05", "C11", "C17"], timeout=900,
+    dict(name="c07_put_client_step_q1", group="c07_put_client_step", file="cached.rs", props=["C07"], timeout=900,
          encodes=["tinylfu_cached::cache::cached::CacheD::{put,put_with_weight,put_with_ttl,put_with_weight_and_ttl,key_description}", "Store::is_present", "CommandExecutor::send", "Calculation::perform", "CommandAcknowledgement::{new,rejected}"]),
-    dict(name="c07_put_client_step_q2", group="c07_put_client_step", file="cached.rs", props=["C07", "C05", "C11", "C17"], timeout=900,
+    dict(name="c07_put_client_step_q2", group="c07_put_client_step", file="cached.rs", props=["C07", "C11", "C17"], timeout=900,
          encodes=["tinylfu_cached::cache::cached::CacheD::{put,put_with_weight,put_with_ttl,put_with_weight_and_ttl,key_description}", "Store::is_present", "CommandExecutor::send", "Calculation::perform", "CommandAcknowledgement::{new,rejected}"]),
-    dict(name="c07_put_client_step_q3", group="c07_put_client_step", file="cached.rs", props=["C07", "C05", "C11", "C17"], timeout=900,
+    dict(name="c07_put_client_step_q3", group="c07_put_client_step", file="cached.rs", props=["C07"], timeout=900,
          encodes=["tinylfu_cached::cache::cached::CacheD::{put,put_with_weight,put_with_ttl,put_with_weight_and_ttl,key_description}", "Store::is_present", "CommandExecutor::send", "Calculation::perform", "CommandAcknowledgement::{new,rejected}"]),
-    dict(name="c04_delete_hides_then_releases_q0", group="c04_delete_hides_then_releases", file="cached.rs", props=["C04", "C05", "C16", "C11", "C12"], timeout=900,
+    dict(name="c04_delete_hides_then_releases_q0", group="c04_delete_hides_then_releases", file="cached.rs", props=["C04", "C16", "C18"], timeout=900,
          encodes=["tinylfu_cached::cache::cached::CacheD::{delete,get,get_ref,put_with_weight,total_weight_used}", "Store::{mark_deleted,delete}", "CommandExecutor::{send,spin (worker closure),delete}", "AdmissionPolicy::delete", "CacheWeight::delete", "TTLTicker::delete", "CommandAcknowledgementHandle::{done,poll}"]),
-    dict(name="c04_delete_hides_then_releases_q1", group="c04_delete_hides_then_releases", file="cached.rs", props=["C04", "C05", "C16", "C11", "C12"], timeout=900,
+    dict(name="c04_delete_hides_then_releases_q1", group="c04_delete_hides_then_releases", file="cached.rs", props=["C04"], timeout=900,
          encodes=["tinylfu_cached::cache::cached::CacheD::{delete,get,get_ref,put_with_weight,total_weight_used}", "Store::{mark_deleted,delete}", "CommandExecutor::{send,spin (worker closure),delete}", "AdmissionPolicy::delete", "CacheWeight::delete", "TTLTicker::delete", "CommandAcknowledgementHandle::{done,poll}"]),
-    dict(name="c04_delete_hides_then_releases_q2", group="c04_delete_hides_then_releases", file="cached.rs", props=["C04", "C05", "C16", "C11", "C12"], timeout=900,
+    dict(name="c04_delete_hides_then_releases_q2", group="c04_delete_hides_then_releases", file="cached.rs", props=["C04"], timeout=900,
          encodes=["tinylfu_cached::cache::cached::CacheD::{delete,get,get_ref,put_with_weight,total_weight_used}", "Store::{mark_deleted,delete}", "CommandExecutor::{send,spin (worker closure),delete}", "AdmissionPolicy::delete", "CacheWeight::delete", "TTLTicker::delete", "CommandAcknowledgementHandle::{done,poll}"]),
-    dict(name="c04_delete_hides_then_releases_q3", group="c04_delete_hides_then_releases", file="cached.rs", props=["C04", "C05", "C16", "C11", "C12"], timeout=900,
+    dict(name="c04_delete_hides_then_releases_q3", group="c04_delete_hides_then_releases", file="cached.rs", props=["C04"], timeout=900,
          encodes=["tinylfu_cached::cache::cached::CacheD::{delete,get,get_ref,put_with_weight,total_weight_used}", "Store::{mark_deleted,delete}", "CommandExecutor::{send,spin (worker closure),delete}", "AdmissionPolicy::delete", "CacheWeight::delete", "TTLTicker::delete", "CommandAcknowledgementHandle::{done,poll}"]),
-    dict(name="c08_put_or_update_step_q0", group="c08_put_or_update_step", file="cached.rs", props=["C08", "C10", "C05", "C17"], timeout=1500,
+    dict(name="c08_put_or_update_step_q0", group="c08_put_or_update_step", file="cached.rs", props=["C08", "C10", "C18"], timeout=1500,
          encodes=["tinylfu_cached::cache::cached::CacheD::{put_or_update,get,key_description}", "PutOrUpdateRequest::updated_weight", "Store::update", "StoredValue::update", "UpdateResponse::type_of_expiry_update", "TTLTicker::{put,update,delete}", "AdmissionPolicy::{weight_of,update}", "CacheWeight::update", "CommandExecutor::{send,spin (worker closure: UpdateWeight arm)}"]),
-    dict(name="c08_put_or_update_step_q1", group="c08_put_or_update_step", file="cached.rs", props=["C08", "C10", "C05", "C17"], timeout=1500,
+    dict(name="c08_put_or_update_step_q1", group="c08_put_or_update_step", file="cached.rs", props=["C08"], timeout=1500,
          encodes=["tinylfu_cached::cache::cached::CacheD::{put_or_update,get,key_description}", "PutOrUpdateRequest::updated_weight", "Store::update", "StoredValue::update", "UpdateResponse::type_of_expiry_update", "TTLTicker::{put,update,delete}", "AdmissionPolicy::{weight_of,update}", "CacheWeight::update", "CommandExecutor::{send,spin (worker closure: UpdateWeight arm)}"]),
-    dict(name="c08_put_or_update_step_q2", group="c08_put_or_update_step", file="cached.rs", props=["C08", "C10", "C05", "C17"], timeout=1500,
+    dict(name="c08_put_or_update_step_q2", group="c08_put_or_update_step", file="cached.rs", props=["C08"], timeout=1500,
          encodes=["tinylfu_cached::cache::cached::CacheD::{put_or_update,get,key_description}", "PutOrUpdateRequest::updated_weight", "Store::update", "StoredValue::update", "UpdateResponse::type_of_expiry_update", "TTLTicker::{put,update,delete}", "AdmissionPolicy::{weight_of,update}", "CacheWeight::update", "CommandExecutor::{send,spin (worker closure: UpdateWeight arm)}"]),
-    dict(name="c08_put_or_update_step_q3", group="c08_put_or_update_step", file="cached.rs", props=["C08", "C10", "C05", "C17"], timeout=1500,
+    dict(name="c08_put_or_update_step_q3", group="c08_put_or_update_step", file="cached.rs", props=["C08"], timeout=1500,
          encodes=["tinylfu_cached::cache::cached::CacheD::{put_or_update,get,key_description}", "PutOrUpdateRequest::updated_weight", "Store::update", "StoredValue::update", "UpdateResponse::type_of_expiry_update", "TTLTicker::{put,update,delete}", "AdmissionPolicy::{weight_of,update}", "CacheWeight::update", "CommandExecutor::{send,spin (worker closure: UpdateWeight arm)}"]),
-    dict(name="c05_worker_put_step_q0", group="c05_worker_put_step", file="cached.rs", props=["C05", "C03", "C01", "C16", "C10", "C11"], timeout=1800,
+    dict(name="c05_worker_put_step_q0", group="c05_worker_put_step", file="cached.rs", props=["C05"], timeout=1800,
          encodes=["tinylfu_cached::cache::command::command_executor::CommandExecutor::{spin (worker closure: Put, PutWithTTL arms),put,put_with_ttl,send}", "AdmissionPolicy::{maybe_add,create_space}", "Store::{put,put_with_ttl,delete (as eviction hook)}", "TTLTicker::put", "CommandAcknowledgementHandle::done"]),
-    dict(name="c05_worker_put_step_q1", group="c05_worker_put_step", file="cached.rs", props=["C05", "C03", "C01", "C16", "C10", "C11"], timeout=1800,
+    dict(name="c05_worker_put_step_q1", group="c05_worker_put_step", file="cached.rs", props=["C05"], timeout=1800,
          encodes=["tinylfu_cached::cache::command::command_executor::CommandExecutor::{spin (worker closure: Put, PutWithTTL arms),put,put_with_ttl,send}", "AdmissionPolicy::{maybe_add,create_space}", "Store::{put,put_with_ttl,delete (as eviction hook)}", "TTLTicker::put", "CommandAcknowledgementHandle::done"]),
-    dict(name="c05_worker_put_step_q2", group="c05_worker_put_step", file="cached.rs", props=["C05", "C03", "C01", "C16", "C10", "C11"], timeout=1800,
+    dict(name="c05_worker_put_step_q2", group="c05_worker_put_step", file="cached.rs", props=["C05", "C01", "C03"], timeout=1800,
          encodes=["tinylfu_cached::cache::command::command_executor::CommandExecutor::{spin (worker closure: Put, PutWithTTL arms),put,put_with_ttl,send}", "AdmissionPolicy::{maybe_add,create_space}", "Store::{put,put_with_ttl,delete (as eviction hook)}", "TTLTicker::put", "CommandAcknowledgementHandle::done"]),
-    dict(name="c05_worker_put_step_q3", group="c05_worker_put_step", file="cached.rs", props=["C05", "C03", "C01", "C16", "C10", "C11"], timeout=1800,
+    dict(name="c05_worker_put_step_q3", group="c05_worker_put_step", file="cached.rs", props=["C05"], timeout=1800,
          encodes=["tinylfu_cached::cache::command::command_executor::CommandExecutor::{spin (worker closure: Put, PutWithTTL arms),put,put_with_ttl,send}", "AdmissionPolicy::{maybe_add,create_space}", "Store::{put,put_with_ttl,delete (as eviction hook)}", "TTLTicker::put", "CommandAcknowledgementHandle::done"]),
     # ---------------------------------------------------------------- expiry index + sweeper (C10)
-    dict(name="c10_one_sweep_removes_exactly_the_expired", file="expiration.rs", props=["C10", "C03"], timeout=900,
+    dict(name="c10_one_sweep_removes_exactly_the_expired", file="expiration.rs", props=["C10"], timeout=900,
          encodes=["tinylfu_cached::cache::expiration::TTLTicker::{new,spin (sweeper closure),shard_index}", "hashbrown::HashMap::retain (model)"]),
-    dict(name="c13_sweeper_stops_after_shutdown", file="expiration.rs", props=["C13", "C10"], timeout=300,
+    dict(name="c13_sweeper_stops_after_shutdown", file="expiration.rs", props=["C13"], timeout=300,
          encodes=["tinylfu_cached::cache::expiration::TTLTicker::{shutdown,clear,spin (sweeper closure)}"]),
     dict(name="c10_index_tracks_current_expiry", file="expiration.rs", props=["C10", "C03"], timeout=900,
          encodes=["tinylfu_cached::cache::expiration::TTLTicker::{put,update,delete,get,shard_index}"]),
@@ -149,6 +149,21 @@ HARNESSES = [
     dict(name="c17_default_weight_calculation", file="config.rs", props=["C17", "C08"], timeout=120, encodes=["tinylfu_cached::cache::config::weight_calculation::Calculation::{perform,ttl_ticker_entry_size}"]),
     dict(name="c08_updated_weight_kernel", file="put_or_update.rs", props=["C08"], timeout=120, encodes=["tinylfu_cached::cache::put_or_update::PutOrUpdateRequest::updated_weight"]),
     dict(name="c08_builder_builds_wellformed_requests", file="put_or_update.rs", props=["C08", "C17"], timeout=120, encodes=["tinylfu_cached::cache::put_or_update::PutOrUpdateRequestBuilder::{new,value,weight,time_to_live,remove_time_to_live,build}"]),
+    # ---------------------------------------------------------------- bursts, shutdown, sweep end to end, consumer
+    dict(name="c11_unawaited_burst_in_order", file="cached.rs", props=["C11", "C18"], timeout=1200,
+         encodes=["tinylfu_cached::cache::cached::CacheD::{put_with_weight,delete,get}", "CommandExecutor::{send,spin (worker closure)}", "crossbeam_channel (model): blocking send on a full queue"]),
+    dict(name="c13_shutdown_gate_and_drain", file="cached.rs", props=["C13", "C18"], timeout=1200,
+         encodes=["tinylfu_cached::cache::cached::CacheD::{shutdown,is_shutting_down + every read and write entry point}", "CommandExecutor::{shutdown,spin (worker closure: Shutdown arm + drain)}", "AdmissionPolicy::{shutdown,clear}", "TTLTicker::{shutdown,clear}", "Store::clear"]),
+    dict(name="c13_command_behind_shutdown_is_answered", file="cached.rs", props=["C13", "C12"], timeout=900,
+         encodes=["tinylfu_cached::cache::command::command_executor::CommandExecutor::{shutdown,send,spin (worker closure: drain loop)}"]),
+    dict(name="c10_sweep_with_stale_entry", file="cached.rs", props=["C10"], timeout=1200,
+         encodes=["tinylfu_cached::cache::expiration::TTLTicker::spin (sweeper closure)", "CacheD::ttl_ticker (evict hook)", "AdmissionPolicy::delete_with_hook", "CacheWeight::delete"]),
+    dict(name="c10_sweep_end_to_end", file="cached.rs", props=["C10", "C18"], timeout=1200,
+         encodes=["tinylfu_cached::cache::expiration::TTLTicker::spin (sweeper closure)", "CacheD::ttl_ticker (evict hook)", "AdmissionPolicy::delete_with_hook", "CacheWeight::delete", "Store::delete"]),
+    dict(name="c15_consumer_applies_each_batch_once", file="admission_policy.rs", props=["C15"], timeout=900,
+         encodes=["tinylfu_cached::cache::policy::admission_policy::AdmissionPolicy::{with_channel_capacity,start (consumer closure),accept,estimate}", "TinyLFU::{new,increment_access}"]),
+    dict(name="c13_consumer_stops_on_shutdown", file="admission_policy.rs", props=["C13"], timeout=900,
+         encodes=["tinylfu_cached::cache::policy::admission_policy::AdmissionPolicy::{shutdown,clear,accept,start (consumer closure)}"]),
 ]
 
 COMMON_WORLD = ("CacheD-level harnesses: a CacheD built by struct literal from the real Store, AdmissionPolicy, TTLTicker (with the real evict hook), "
